@@ -184,7 +184,6 @@ Next == \/ \E t \in Threads, o \in Ops : Start(t, o)
 Spec == Init /\ [][Next]_vars
 
 (* ------------------------------ properties ------------------------------ *)
-IsChars(s) == s \in Seq(STRING)   \* only used on concrete values (TLC evaluates membership elementwise)
 TypeOK ==
     /\ \A b \in Bufs : Len(buf[b]) >= Len(InitBuf[b]) /\ Len(abs[b]) >= Len(InitBuf[b])
     /\ \A t \in Threads :
@@ -192,7 +191,7 @@ TypeOK ==
          /\ stage[t] \in 0..2
          /\ holds[t] \subseteq Bufs
          /\ nops[t] \in 0..MaxOps
-         /\ (pc[t] = "idle") = (cur[t] = NoOp)
+         /\ (pc[t] = "idle") = (cur[t].k = "none")
          /\ (pc[t] = "idle" => holds[t] = {} /\ stage[t] = 0)
          /\ (pc[t] # "idle" => cur[t] \in Ops /\ stage[t] \in 1..Locks(cur[t]))
     /\ linOk \in BOOLEAN
